@@ -9,7 +9,7 @@ from fractions import Fraction
 from harness import common, oplab
 
 ID = "C09"
-LEAN_MODULES = ["PptxModel.Props.C09", "PptxModel.Props.C09C"]
+LEAN_MODULES = ["PptxModel.Props.C09", "PptxModel.Props.C09C", "PptxModel.Props.C09F"]
 RULE = (
     "the property table of harness/oplab.py (~110 read/write properties of Presentation, slides, shapes, pictures, "
     "connectors, text frames, paragraphs, runs, fonts, lines, colours, gradient / pattern fills, tables, cells, rows, "
@@ -46,7 +46,14 @@ COUPLED = {
     ("datalabel", "has_text_frame"): {"position"},
     ("datalabel", "position"): {"has_text_frame"},
 }
-NONE_READS = {("legend", "include_in_layout"): True, ("plot", "vary_by_categories"): True, ("bubbleplot", "bubble_scale"): 100,
+# properties whose domain depends on the object's state: an in-domain value may be refused there (the reading must not move)
+CONDITIONAL = {
+    ("connector", "begin_x"), ("connector", "begin_y"), ("connector", "end_x"), ("connector", "end_y"),   # the span to the other end point must be representable
+    ("gradfill", "gradient_angle"),                                                                       # only a linear gradient has one
+    ("row", "height"), ("column", "width"),                                                               # the frame must be able to take the new total
+    ("ticklabels", "offset"),                                                                             # a value axis has no c:lblOffset
+}
+NONE_READS = {("ticklabels", "number_format_is_linked"): True, ("datalabels", "number_format_is_linked"): True, ("legend", "include_in_layout"): True, ("plot", "vary_by_categories"): True, ("bubbleplot", "bubble_scale"): 100,
               ("cell", "margin_left"): 91440, ("cell", "margin_right"): 91440, ("cell", "margin_top"): 45720, ("cell", "margin_bottom"): 45720}
 
 
@@ -337,6 +344,8 @@ def exercise(ctx, prs, label, rng, budget, none_first=False, zero_first=False, w
             elif cls in ("in", "none") and before_self[0] == "v":
                 # a conditional domain (e.g. gradient_angle of a non-linear gradient, offset of a value axis): the reading must not move
                 ctx.count(f"conditional-domain:{p.kind}.{p.name}")
+                if (p.kind, p.name) not in CONDITIONAL:
+                    ctx.fail(f"{p.kind}.{p.name}:in-domain-value-refused", f"{label} {path}.{p.name} = {v!r} (a value of the documented domain) was refused: {outcome} {case.get('exception', '')}", case)
                 if after_self != before_self:
                     ctx.fail(f"{p.kind}.{p.name}:rejected-but-changed", f"{label} {path}.{p.name} = {v!r} was rejected ({outcome}) but the reading changed from {before_self[1]!r} to {after_self[1]!r}", case)
         else:
@@ -680,6 +689,221 @@ def colours(ctx):
         ctx.fail("color:invalid-xml", f"slide after the colour histories: {msg}", {})
 
 
+_FILL_TAGS = ["noFill", "solidFill", "gradFill", "blipFill", "pattFill", "grpFill"]
+
+
+def fills(ctx):
+    """`FillFormat` histories against `Model/Fill` (`c09.fill`): the fill of a shape, a line, a font and a table cell, from
+    start states the library never writes itself (gradients without a:lin, with a:path, without stops; patterns without
+    colours; colours of any kind with foreign transforms), under seeded calls - the four type changes, pattern, fore / back
+    colour assignments, gradient angle, stop colour and position, refused values and calls the fill kind does not support
+    included; after EVERY call its outcome (ok / TypeError / ValueError / IndexError), the fill element as stored and the
+    readers, each call made through a FillFormat held from the start or through a new one"""
+    from lxml import etree
+    from pptx import Presentation
+    from pptx.dml.color import RGBColor
+    from pptx.enum.dml import MSO_FILL, MSO_PATTERN, MSO_THEME_COLOR
+    from pptx.enum.shapes import MSO_SHAPE
+    from pptx.oxml import parse_xml
+
+    rng = ctx.rng
+    A = oplab_ns()
+    themes = [m for m in MSO_THEME_COLOR if m not in (MSO_THEME_COLOR.NOT_THEME_COLOR, MSO_THEME_COLOR.MIXED)]
+    t_index = {MSO_THEME_COLOR.to_xml(m): i for i, m in enumerate(themes)}
+    a1 = t_index["accent1"]
+    patterns = [m for m in MSO_PATTERN if m != MSO_PATTERN.MIXED]
+    p_index = {MSO_PATTERN.to_xml(m): i for i, m in enumerate(patterns)}
+    kind_no = {None: "N", MSO_FILL.BACKGROUND: "0", MSO_FILL.SOLID: "S", MSO_FILL.GRADIENT: "R", MSO_FILL.PICTURE: "B", MSO_FILL.PATTERNED: "P", MSO_FILL.GROUP: "G"}
+    prs = Presentation()
+    slide = prs.slides.add_slide(prs.slide_layouts[6])
+
+    def q(t):
+        return "{%s}%s" % (A, t)
+
+    def site(kind):
+        sp = slide.shapes.add_shape(MSO_SHAPE.RECTANGLE, 0, 0, 99, 99)
+        sid = sp.shape_id
+        again = lambda: [x for x in slide.shapes if x.shape_id == sid][0]  # noqa: E731  (a NEW shape proxy each time)
+        if kind == "shape":
+            return sp._element.spPr, lambda: again().fill
+        if kind == "line":
+            sp.line.width = 12700
+            return sp._element.spPr.find(q("ln")), lambda: again().line.fill
+        if kind == "font":
+            r = sp.text_frame.paragraphs[0].add_run(); r.text = "t"; r.font.bold = True
+            return r._r.rPr, lambda: again().text_frame.paragraphs[0].runs[0].font.fill
+        gf = slide.shapes.add_table(1, 1, 0, 0, 99, 99)
+        gid = gf.shape_id
+        gf.table.cell(0, 0).margin_left = 5
+        return gf.table.cell(0, 0)._tc.tcPr, lambda: [x for x in slide.shapes if x.shape_id == gid][0].table.cell(0, 0).fill
+
+    def clr_xml():
+        k = rng.choice([1, 1, 4, 4, 0, 2, 3, 5])
+        attrs = {0: 'r="10000" g="20000" b="30000"', 1: 'val="%06X"' % rng.randrange(2**24), 2: 'hue="600000" sat="50000" lum="40000"',
+                 3: 'val="windowText"', 4: 'val="%s"' % rng.choice(sorted(t_index)), 5: 'val="red"'}[k]
+        kids = []
+        for _ in range(rng.choice([0, 0, 1, 2, 3])):
+            t = rng.choice([0, 0, 1, 1, 2, 3, 4, 5])
+            kids.append('<a:%s val="%d"/>' % (_XF_TAGS[t], rng.choice([0, 1, 25000, 50000, 75000, 100000, 120000 if t in (0, 1, 3) else 99999, rng.randint(0, 100000)])))
+        return '<a:%s %s>%s</a:%s>' % (_CLR_TAGS[k], attrs, "".join(kids), _CLR_TAGS[k])
+
+    def start_xml(kind):
+        opts = ["N", "0", "S", "S", "R", "R", "R", "P", "P"] + (["B", "G"] if kind == "shape" else [])
+        k = rng.choice(opts)
+        if k == "N":
+            return None
+        if k == "0":
+            return "<a:noFill/>"
+        if k == "B":
+            return "<a:blipFill><a:blip/></a:blipFill>"
+        if k == "G":
+            return "<a:grpFill/>"
+        if k == "S":
+            return "<a:solidFill>%s</a:solidFill>" % (clr_xml() if rng.random() < 0.8 else "")
+        if k == "R":
+            n = rng.choice([None, 2, 2, 3, 4])
+            gs = "" if n is None else "<a:gsLst>%s</a:gsLst>" % "".join('<a:gs pos="%d">%s</a:gs>' % (rng.choice([0, 100000, 50000, rng.randint(0, 100000)]), clr_xml()) for _ in range(n))
+            shade = rng.choice(["", '<a:lin scaled="0"/>', '<a:lin ang="%d" scaled="1"/>' % rng.choice([0, 5400000, 21599999, rng.randint(0, 21599999)]), '<a:path path="circle"/>'])
+            return "<a:gradFill>%s%s</a:gradFill>" % (gs, shade)
+        prst = "" if rng.random() < 0.4 else ' prst="%s"' % rng.choice(sorted(p_index))
+        fg = "" if rng.random() < 0.5 else "<a:fgClr>%s</a:fgClr>" % clr_xml()
+        bg = "" if rng.random() < 0.5 else "<a:bgClr>%s</a:bgClr>" % clr_xml()
+        return "<a:pattFill%s>%s%s</a:pattFill>" % (prst, fg, bg)
+
+    def fill_elm(parent):
+        for ch in parent:
+            if etree.QName(ch).localname in _FILL_TAGS and etree.QName(ch).namespace == A:
+                return ch
+        return None
+
+    def dump_clr(parent):
+        e = next((ch for ch in parent if etree.QName(ch).localname in _CLR_TAGS), None)
+        if e is None:
+            return "-"
+        k = _CLR_TAGS.index(etree.QName(e).localname)
+        v = int(e.get("val"), 16) if k == 1 else t_index.get(e.get("val"), 0) if k == 4 else 0
+        kids = ",".join("%d=%s" % (_XF_TAGS.index(etree.QName(c).localname), c.get("val")) for c in e)
+        return "%d:%d:%s" % (k, v, kids or "!")
+
+    def dump(parent):
+        e = fill_elm(parent)
+        if e is None:
+            return "N"
+        t = etree.QName(e).localname
+        if t in ("noFill", "blipFill", "grpFill"):
+            return {"noFill": "0", "blipFill": "B", "grpFill": "G"}[t]
+        if t == "solidFill":
+            return "S/" + dump_clr(e)
+        if t == "gradFill":
+            lin, path, gl = e.find(q("lin")), e.find(q("path")), e.find(q("gsLst"))
+            stops = [] if gl is None else ["%s@%s" % (g.get("pos"), dump_clr(g)) for g in gl]
+            return "R/%s/%d/%s" % ("n" if lin is None else (lin.get("ang") or "0"), path is not None, "+".join(stops) or "!")
+        fg, bg = e.find(q("fgClr")), e.find(q("bgClr"))
+        return "P/%s/%s/%s" % ("n" if e.get("prst") is None else p_index[e.get("prst")], "~" if fg is None else dump_clr(fg), "~" if bg is None else dump_clr(bg))
+
+    def readers(f):
+        out = [kind_no.get(f.type, "?")]
+        try:
+            p_ = f.pattern; out.append("n" if p_ is None else str(patterns.index(p_)))
+        except TypeError:
+            out.append("T")
+        try:
+            a = f.gradient_angle; out.append("n" if a is None else str(round(a * 60000)))
+        except TypeError:
+            out.append("T")
+        except ValueError:
+            out.append("V")
+        try:
+            out.append(str(len(f.gradient_stops)))
+        except TypeError:
+            out.append("T")
+        return " ".join(out)
+
+    def colour_op():
+        r = rng.random()
+        if r < 0.35:
+            v = rng.randrange(2**24)
+            return "r%d" % v, lambda c: setattr(c, "rgb", RGBColor(v >> 16, (v >> 8) & 255, v & 255))
+        if r < 0.65:
+            t = rng.randrange(len(themes))
+            return "t%d" % t, lambda c: setattr(c, "theme_color", themes[t])
+        f = rng.choice([Fraction(0), Fraction(1), Fraction(-1), Fraction(5, 4), Fraction(1, 2), Fraction(-1, 4), Fraction(rng.randint(-70, 70), 64)])
+        return "b%d/%d" % (f.numerator, f.denominator), lambda c: setattr(c, "brightness", float(f))
+
+    lines, impl, metas = [], [], []
+    n = 80 if ctx.quick else 1200
+    for hi in range(n):
+        kind = rng.choice(["shape", "shape", "line", "font", "cell"])
+        parent, fresh = site(kind)
+        fresh().solid()                       # the library puts the fill element where the schema has it ...
+        sx = start_xml(kind)
+        old = fill_elm(parent)
+        if sx is None:
+            parent.remove(old)
+        else:
+            parent.replace(old, parse_xml('<a:w xmlns:a="%s">%s</a:w>' % (A, sx))[0])   # ... and the start state takes its place
+        start = dump(parent)
+        held = fresh()
+        outs = ["start|%s|%s" % (start, readers(held))]
+        ops = []
+        for _ in range(rng.randint(1, 9)):
+            r = rng.random()
+            who = held if rng.random() < 0.5 else fresh()
+            if r < 0.3:
+                tok, act = rng.choice([("bg", lambda f: f.background()), ("so", lambda f: f.solid()), ("gr", lambda f: f.gradient()), ("pa", lambda f: f.patterned())])
+            elif r < 0.4:
+                pv = rng.choice([None] + list(range(len(patterns))))
+                tok, act = "pt%s" % ("n" if pv is None else pv), lambda f: setattr(f, "pattern", None if pv is None else patterns[pv])
+            elif r < 0.6:
+                ctok, cact = colour_op()
+                tok, act = "f:" + ctok, lambda f: cact(f.fore_color)
+            elif r < 0.7:
+                ctok, cact = colour_op()
+                tok, act = "k:" + ctok, lambda f: cact(f.back_color)
+            elif r < 0.8:
+                fr = dyadic(rng, -720, 720)
+                tok, act = "an%d/%d" % (fr.numerator, fr.denominator), lambda f: setattr(f, "gradient_angle", float(fr))
+            elif r < 0.9:
+                i = rng.randint(0, 4)
+                ctok, cact = colour_op()
+                tok, act = "sc%d:%s" % (i, ctok), lambda f: cact(f.gradient_stops[i].color)
+            else:
+                i = rng.randint(0, 4)
+                fr = rng.choice([Fraction(0), Fraction(1), Fraction(1, 2), Fraction(-1, 64), Fraction(65, 64), Fraction(rng.randint(0, 64), 64)])
+                tok, act = "sp%d:%d/%d" % (i, fr.numerator, fr.denominator), lambda f: setattr(f.gradient_stops[i], "position", float(fr))
+            ops.append(tok)
+            try:
+                act(who)
+                res = "ok"
+            except TypeError:
+                res = "T"
+            except ValueError:
+                res = "V"
+            except IndexError:
+                res = "I"
+            except AttributeError as e:
+                res = "A"
+                ctx.fail("fill:undocumented-exception:" + tok[:2], f"{kind} fill {dump(parent)}: call {tok} raised AttributeError ({e}); the documented refusals are TypeError "
+                         f"(the fill kind does not have it) and ValueError", {"site": kind, "start": start, "ops": list(ops)})
+            a, b = readers(held), readers(fresh())
+            if a != b:
+                ctx.fail("fill:stale-proxy", f"{kind} fill {dump(parent)} after {ops}: a FillFormat obtained before reads (type pattern angle stops) = {a}, "
+                         f"one obtained now reads {b}", {"site": kind, "start": start, "ops": list(ops)})
+                held = fresh()   # go on with a proxy that sees the element
+            outs.append("%s|%s|%s" % (res, dump(parent), b))
+            ctx.count("fill-op-" + tok[:2].rstrip(":0123456789") + "-" + res)
+        ctx.count("fill-site-" + kind); ctx.count("fill-start-" + start[0])
+        # a line's new gradient is a bare a:gradFill (CT_LineProperties does not override _new_gradFill), every other site's the template
+        line = "c09.fill %s %s %s" % ("n" if kind == "line" else a1, start, ";".join(ops))
+        lines.append(line); impl.append(";".join(outs)); metas.append({"conv": "fill", "site": kind, "start": start, "ops": ops})
+        ctx.case(key=line)
+    res = ctx.driver.run(lines)
+    for line, i, m, meta in zip(lines, impl, res, metas):
+        ctx.traces += 1
+        if i != m:
+            ctx.disagree("fill", dict(meta, line=line), i, m)
+
+
 def oplab_ns():
     return "http://schemas.openxmlformats.org/drawingml/2006/main"
 
@@ -936,6 +1160,7 @@ def correspond(ctx):
     coupled_sums(ctx)
     stores(ctx)
     colours(ctx)
+    fills(ctx)
     rng = ctx.rng
     reps = 6 if ctx.quick else 20
     for r in range(reps):
